@@ -13,4 +13,16 @@ PROPS = {
         "explanation": "theorems about Model/Book.v (transcription of report::book_keeping add_transaction/process_posting/check_balance over exact rationals); correspondence = generated ledger text through the real parser and report::process, compared posting by posting",
         "trusted": ["rust_decimal exact + - * within the generator's range; Decimal division compared up to 1e-18 relative", "winnow/parser glue is exercised, not modelled, at this layer"],
     },
+    "C02": {
+        "props": "Props/C02.v",
+        "classify": "Run/Classify_C02.v",
+        "explanation": "assertions re-checked against running sums of the amounts the implementation stored, in file order; theorems about process_posting/assert_balance in Model/Book.v",
+        "trusted": ["rust_decimal exact + - * within the generator's range", "winnow/parser glue is exercised, not modelled, at this layer"],
+    },
+    "C03": {
+        "props": "Props/C03.v",
+        "classify": "Run/Classify_C03.v",
+        "explanation": "inferred (omitted / assigned) amounts re-derived from the implementation's stored amounts; theorems about the deduction branch and set_partial in Model/Book.v",
+        "trusted": ["rust_decimal exact + - * within the generator's range", "winnow/parser glue is exercised, not modelled, at this layer"],
+    },
 }
